@@ -52,7 +52,7 @@ func (g *c19Gen) stmt(indent int, s string) int {
 func (g *c19Gen) block(indent int, n int, inFunc bool) {
 	for i := 0; i < n && g.budget > 0; i++ {
 		g.budget--
-		k := g.tape.Choose(27)
+		k := g.tape.Choose(29)
 		if g.depth >= 2 && (k == 1 || k == 2 || k == 3 || (k >= 14 && k <= 22)) {
 			k = 0
 		}
@@ -233,6 +233,14 @@ func (g *c19Gen) block(indent int, n int, inFunc bool) {
 			g.stmt(indent, "x, _ = two(x)")
 		case 26:
 			g.stmt(indent, fmt.Sprintf("p%d := &acc{x %% 7}; p%d.bump(); x += p%d.k", id, id, id))
+		case 27:
+			// a run-time fault (index out of range, nil map write, division by
+			// zero) recovered by the deferred function of the callee
+			g.stmt(indent, "x = fault(x)")
+		case 28:
+			// a deferred function that panics while its function returns normally;
+			// the caller's deferred function recovers
+			g.stmt(indent, "x = outer2(x)")
 		case 13:
 			// select used sequentially: buffered channel, default clause
 			sc := fmt.Sprintf("sc%d", g.line+1)
@@ -296,6 +304,42 @@ func GenC19(tape *Tape) *C19Prog {
 	g.raw("func two(x int) (a, b int) {")
 	g.fline["two"] = g.stmt(1, "a, b = x+1, x+2")
 	g.stmt(1, "return")
+	g.raw("}")
+	g.raw("")
+	g.raw("func fault(x int) (r int) {")
+	g.fline["fault"] = g.stmt(1, "defer func() {")
+	g.stmt(2, "if e := recover(); e != nil {")
+	g.stmt(3, "r = x + 50")
+	g.raw("\t\t}")
+	g.raw("\t}()")
+	g.stmt(1, "a := []int{1, 2, 3}")
+	g.stmt(1, "switch x % 3 {")
+	g.raw("\tcase 0:")
+	g.stmt(2, "r = a[x%3+3]")
+	g.raw("\tcase 1:")
+	g.stmt(2, "var m map[int]int")
+	g.stmt(2, "m[x] = 1")
+	g.raw("\tdefault:")
+	g.stmt(2, "z := x % 1")
+	g.stmt(2, "r = x / z")
+	g.raw("\t}")
+	g.stmt(1, "return r + 1")
+	g.raw("}")
+	g.raw("")
+	g.raw("func inner2(x int) int {")
+	g.fline["inner2"] = g.stmt(1, "defer func() {")
+	g.stmt(2, "panic(fmt.Sprint(\"pd\", x))")
+	g.raw("\t}()")
+	g.stmt(1, "return x + 1")
+	g.raw("}")
+	g.raw("")
+	g.raw("func outer2(x int) (r int) {")
+	g.fline["outer2"] = g.stmt(1, "defer func() {")
+	g.stmt(2, "if e := recover(); e != nil {")
+	g.stmt(3, "r = x + 9")
+	g.raw("\t\t}")
+	g.raw("\t}()")
+	g.stmt(1, "return inner2(x) + 1")
 	g.raw("}")
 	g.raw("")
 	g.raw("func safe(x int) (r int) {")
@@ -404,12 +448,17 @@ func GenC19(tape *Tape) *C19Prog {
 	}
 	g.budget = 10
 	g.block(1, 2+tape.Choose(5), false)
-	if tape.Choose(6) == 5 {
+	switch tape.Choose(6) {
+	case 5:
 		g.stmt(1, "panic(fmt.Sprint(\"final \", x))")
+	case 4:
+		// an uncaught run-time fault
+		g.stmt(1, "var fm map[string]int")
+		g.stmt(1, "fm[\"a\"] = x")
 	}
 	g.stmt(1, "fmt.Println(\"end\", x)")
 	g.raw("}")
-	funcs := append([]string{"add", "safe", "rec", "spawn", "pos", "two", "bump"}, g.funcs...)
+	funcs := append([]string{"add", "safe", "rec", "spawn", "pos", "two", "bump", "fault", "outer2", "inner2"}, g.funcs...)
 	if hasLong {
 		funcs = append(funcs, "long")
 	}
@@ -819,7 +868,9 @@ func RunC19(t *testing.T, tape *Tape) *Outcome {
 				setupFailed, setupErr = true, err.Error()
 				return
 			}
-			dbg := it.Debug(context.Background(), p, func(e *interp.DebugEvent) {
+			ctxD, cancelD := context.WithCancel(context.Background())
+			defer cancelD()
+			dbg := it.Debug(ctxD, p, func(e *interp.DebugEvent) {
 				ev := c19Event{reason: e.Reason(), g: -1}
 				if e.Reason() != interp.DebugTerminate {
 					ev.g = e.GoRoutine()
@@ -899,8 +950,13 @@ func RunC19(t *testing.T, tape *Tape) *Outcome {
 			for {
 				if termAt > 0 && stopsSeen >= termAt {
 					// end the session while the program is stopped
+					// (Terminate "attempts to terminate the program": it reaches the
+					// goroutines that pass through the debugger, not one blocked in a
+					// channel operation; the client also cancels the context it gave to
+					// Debug, as an adapter does when its user disconnects)
 					terminated = true
 					dbg.Terminate()
+					cancelD()
 					for {
 						if ev := <-evch; ev.reason == interp.DebugTerminate {
 							terminateSeenBeforeWait = true
